@@ -1,1 +1,2 @@
+-- Root of the library.  Individual properties are built as `PytypeModel.Props.Cxx` (see setup.sh).
 import PytypeModel.Typegraph.Reach
